@@ -666,3 +666,89 @@ func TestZZReplay(t *testing.T) {
 		},
 	})
 }
+
+const ctlGateFactory = `
+type zzGateBackend struct{ zzBackend }
+
+func (b *zzGateBackend) Size() (int64, error) { return 1 << 20, nil }
+
+type zzGateFactory struct {
+	gate    map[string]chan struct{}
+	entered chan string
+}
+
+func (f *zzGateFactory) Create(address string) (types.Backend, error) {
+	if g, ok := f.gate[address]; ok {
+		f.entered <- address
+		<-g
+	}
+	return &zzGateBackend{zzBackend{name: address, monitor: make(types.MonitorChannel, 2)}}, nil
+}
+func (f *zzGateFactory) SignalToAdd(a, action string) error { return nil }
+func (f *zzGateFactory) VerifyReplicaAlive(string) bool    { return true }
+`
+
+func init() {
+	// addReplica: the replication-factor admission test is made in a first critical section, the replica is
+	// appended in a second one (scripted interleaving: a second add and its promotion run in between)
+	replayTemplates = append(replayTemplates, replayTemplate{
+		match: func(o *Obligation) bool {
+			return o.Fn == "controller.Controller.addReplica" && strings.HasPrefix(o.Kind, "lockinv.bounded")
+		},
+		scripted: true,
+		pkg:      "controller",
+		gen: func(o *Obligation, vals map[string]string) (string, bool) {
+			body := `
+func TestZZReplay(t *testing.T) {
+	t.Setenv("REPLICATION_FACTOR", "2")
+	slow := "tcp://10.0.0.2:9502"
+	fac := &zzGateFactory{gate: map[string]chan struct{}{slow: make(chan struct{})}, entered: make(chan string, 1)}
+	c, _ := zzController(2, []types.Mode{types.RW}, 1<<20)
+	c.factory = fac
+	done := make(chan error, 1)
+	go func() { done <- c.AddReplica(slow) }()
+	<-fac.entered // the first add passed the admission tests, released the lock and is connecting
+	if err := c.AddReplica("tcp://10.0.0.3:9502"); err != nil {
+		t.Logf("second add refused: %v", err)
+	} else if err := c.SetReplicaMode("tcp://10.0.0.3:9502", types.RW); err != nil { // its rebuild finished
+		t.Logf("promotion failed: %v", err)
+	}
+	close(fac.gate[slow])
+	err := <-done
+	t.Logf("first add: err=%v; replicas=%+v replication factor 2", err, c.ListReplicas())
+	if len(c.ListReplicas()) > 2 {
+		t.Fatalf("REPLAY-REPRODUCED: %d data replicas attached with replication factor 2", len(c.ListReplicas()))
+	}
+	t.Log("REPLAY-NOT-REPRODUCED")
+}
+`
+			return ctlMock + ctlGateFactory + body, true
+		},
+	})
+	// Start: every address of the request is attached, however many
+	replayTemplates = append(replayTemplates, replayTemplate{
+		match: func(o *Obligation) bool {
+			return o.Fn == "controller.Controller.Start" && strings.HasPrefix(o.Kind, "lockinv.bounded")
+		},
+		scripted: true,
+		pkg:      "controller",
+		gen: func(o *Obligation, vals map[string]string) (string, bool) {
+			body := `
+func TestZZReplay(t *testing.T) {
+	t.Setenv("REPLICATION_FACTOR", "1")
+	c, _ := zzController(1, nil, 1<<20)
+	c.factory = &zzGateFactory{gate: map[string]chan struct{}{}}
+	c.MaxRevReplica = "10.0.0.1"
+	c.StartSignalled = true
+	err := c.Start("tcp://10.0.0.1:9502", "tcp://10.0.0.2:9502")
+	t.Logf("Start err=%v replicas=%+v replication factor 1", err, c.ListReplicas())
+	if len(c.ListReplicas()) > 1 {
+		t.Fatalf("REPLAY-REPRODUCED: %d data replicas attached with replication factor 1", len(c.ListReplicas()))
+	}
+	t.Log("REPLAY-NOT-REPRODUCED")
+}
+`
+			return ctlMock + ctlGateFactory + body, true
+		},
+	})
+}
